@@ -580,6 +580,19 @@ func lemmaReencodeREMB(raw []byte) (p, q ReceiverEstimatedMaximumBitrate, err, e
 	return p, q, nil, nil, err3
 }
 
+// lemmaReencodeREMBExact: the same with the exact-bitrate clause (a float goal of ~15 s: thorough tier only).
+func lemmaReencodeREMBExact(raw []byte) (p, q ReceiverEstimatedMaximumBitrate, err, err2, err3 error) {
+	if err = p.Unmarshal(raw); err != nil {
+		return
+	}
+	b, err2 := p.Marshal()
+	if err2 != nil {
+		return p, q, nil, err2, nil
+	}
+	err3 = q.Unmarshal(b)
+	return p, q, nil, nil, err3
+}
+
 // lemmaReencodeTWCCPre (C09): what TransportLayerCC.Marshal requires in order not to panic (non-nil deltas, chunks of
 // the two known kinds with at most 14 symbols) is established by TransportLayerCC.Unmarshal for every accepted input:
 // the call below is checked against Marshal's preconditions.
